@@ -3,6 +3,7 @@ import RichModel.Lemmas.WrapDivide
 import RichModel.Lemmas.WrapSplit
 import RichModel.Lemmas.WrapFold
 import RichModel.Lemmas.WrapKept
+import RichModel.Lemmas.WrapFullFold
 import RichModel.Props.C13
 /-!
 # C02 — word wrapping keeps every character, in order, with its own style
@@ -18,17 +19,20 @@ apply to it, base style first, then the covering spans in span order ("later spa
 list).  `nsv v` is the sub-list of the non-whitespace characters (Python's `str.isspace` class, generated).
 
 Variants.  `WVariant.repaired` = rich 9.10.0 with `pending_fixes/C05-divide-order-alias.diff` and
-`pending_fixes/C02-justify-negative-pad.diff`; `WVariant.released` = rich 9.10.0 as it is.  The `old_…` theorems
+`pending_fixes/C02-justify-negative-pad.diff`; `WVariant.released` = rich 9.10.0 as released (the first repair is commit aad03fe in /repo by now).  The `old_…` theorems
 exhibit, by evaluation, a concrete input on which the released code violates the statement proved for the repaired code.
 
+Justify "full" rebuilds every line but the last as `Text("").join(tokens)`, which puts the null style `""` of
+`Text("")` in front of every effective style; statements that include "full" therefore compare styled strings after
+erasing the null style (`dropNull`: `""` is the identity of rich's style algebra), the statements for the other four
+modes are exact.
+
 Open obligations (modelled, compared with rich on every run, evaluated directly on rich; not proved here):
-* justify = "full" (`justifyFull`: `Text.split(" ")` + `Text("").join(tokens)`): the statements below are proved
-  for the four modes that treat lines separately ("default", "left", "center", "right");
-  full statement: `wrap_fold_keeps_nonspace` / `wrap_style_preserved` with `hj` dropped and styles compared after
-  removing the null style `""` that `join` puts in front;
-* texts containing tabs (`expandTabs`, owned by C05, has no proved `view` lemma yet): the whole-text theorem
-  `wrap_fold_keeps_nonspace_partial` assumes `'\t' ∉ t.plain`; the per-paragraph theorems (`wrapLine_…`) speak about
-  the paragraph *after* tab expansion and are unconditional.
+* texts containing tabs (`expandTabs`, owned by C05, has no proved `view` lemma; it re-applies the base style):
+  the whole-text theorems `wrap_fold_keeps_…_partial` assume `'\t' ∉ t.plain`; the per-paragraph theorems
+  (`wrapLine_…`) speak about the paragraph *after* tab expansion and are unconditional;
+* `wrapLine_style_preserved` (every overflow mode) is proved for the four justify modes that treat lines separately;
+  for "full" with overflow other than "fold" only `wrap_lines_fit` is proved.
 -/
 namespace RichModel.C02
 open RichModel RichModel.Text RichModel.Wrap
@@ -147,20 +151,63 @@ theorem wrapLine_fold_keeps_chars [BEq σ] (cw : Char → Nat) (hsp : cw ' ' = 1
   funext l
   rw [view_eq_annot, annot_map_fst]
 
-/-- **Whole text** (`Text.wrap` as called: split on newlines, wrap every paragraph): with the effective overflow
-"fold", wrapping enabled and a justify mode other than "full", for a text without tab characters, the
-non-whitespace characters of all produced lines, with their effective styles, are exactly those of the text.
-`_partial`: tabs and justify "full" are the open obligations named in the header. -/
-theorem wrap_fold_keeps_nonspace_partial [BEq σ] (cw : Char → Nat) (hsp : cw ' ' = 1) (h2 : ∀ c, cw c ≤ 2) (A : StyleAlg σ)
-    (t : Text σ) (ht : Inv t) (w : Nat) (hw : 2 ≤ w) (justify : Option Justify) (overflow : Option Overflow)
-    (tabSize : Option Nat) (noWrap : Option Bool)
-    (hov : wrapOverflowOf t overflow = Overflow.fold) (hnw : noWrapOf t overflow noWrap = false)
-    (hj : wrapJustifyOf t justify ≠ Justify.full) (htab : '\t' ∉ t.plain) :
+/-- The same for justify **"full"**: every line but the last of the paragraph is rebuilt from its words with the
+blanks spread out; the non-whitespace characters of the produced lines and their effective styles are those of the
+paragraph (up to the null style `""` that `Text("").join` puts in front). -/
+theorem wrapLine_fold_keeps_full [BEq σ] [LawfulBEq σ] (cw : Char → Nat) (hsp : cw ' ' = 1) (h2 : ∀ c, cw c ≤ 2)
+    (A : StyleAlg σ) (w : Nat) (hw : 2 ≤ w) (P : Text σ) (hP : Inv P) :
+    ∃ out, wrapLine WVariant.repaired cw A P w Justify.full Overflow.fold false = .ok out ∧
+      dropNull A (nsv (out.flatMap Text.view)) = dropNull A (nsv P.view) ∧ ∀ l ∈ out, Inv l := by
+  have hwc : ∀ c, cw c ≤ w := fun c => Nat.le_trans (h2 c) hw
+  obtain ⟨hpw, hin⟩ := Wrap.divideLine_offsets cw P.plain w true hwc
+  have hasc : AscFrom 0 (divideLine cw P.plain w true) :=
+    ascFrom_of_pairwise _ 0 (hpw.imp (fun h => Nat.le_of_lt h)) (fun o _ => Nat.zero_le o)
+  obtain ⟨lines, hdiv, hview, hplain, hall⟩ :=
+    Text.divide_view P _ hP hasc (fun o ho => Nat.le_of_lt (hin o ho).2)
+  exact wrapLine_fold_full_ink cw hsp A w P lines hasc hdiv hview hplain (fun l hl => (hall l hl).1)
+    (Wrap.divideLine_pieces_fit cw P.plain w hwc)
+
+/-- **Every justify mode** ("default", "left", "center", "right", "full"): with overflow "fold" the non-whitespace
+characters of the produced lines, concatenated, are exactly those of the paragraph — none dropped, duplicated or
+reordered — and each carries the effective style it had (compared modulo the null style, see the header). -/
+theorem wrapLine_fold_keeps_every_justify [BEq σ] [LawfulBEq σ] (cw : Char → Nat) (hsp : cw ' ' = 1) (h2 : ∀ c, cw c ≤ 2)
+    (A : StyleAlg σ) (w : Nat) (hw : 2 ≤ w) (j : Justify) (P : Text σ) (hP : Inv P) :
+    ∃ out, wrapLine WVariant.repaired cw A P w j Overflow.fold false = .ok out ∧
+      dropNull A (nsv (out.flatMap Text.view)) = dropNull A (nsv P.view) ∧ (∀ l ∈ out, Inv l) ∧
+      (out.flatMap (·.plain)).filter (fun c => !pyIsSpace c) = P.plain.filter (fun c => !pyIsSpace c) := by
+  have hmain : ∃ out, wrapLine WVariant.repaired cw A P w j Overflow.fold false = .ok out ∧
+      dropNull A (nsv (out.flatMap Text.view)) = dropNull A (nsv P.view) ∧ (∀ l ∈ out, Inv l) := by
+    by_cases hj : j = Justify.full
+    · subst hj; exact wrapLine_fold_keeps_full cw hsp h2 A w hw P hP
+    · obtain ⟨out, h1, h3, h4⟩ := wrapLine_fold_keeps cw hsp h2 A w hw j hj P hP
+      exact ⟨out, h1, by rw [h3], h4⟩
+  obtain ⟨out, h1, h3, h4⟩ := hmain
+  refine ⟨out, h1, h3, h4, ?_⟩
+  have key : ∀ (v : List (Char × List σ)), (dropNull A (nsv v)).map (·.1) = (v.map (·.1)).filter (fun c => !pyIsSpace c) := by
+    intro v; simp only [dropNull, nsv, List.map_map, List.filter_map]; rfl
+  have h5 := congrArg (List.map (·.1)) h3
+  rw [key, key, view_eq_annot, annot_map_fst] at h5
+  rw [← h5]
+  congr 1
+  simp only [List.map_flatMap]
+  congr 1
+  funext l
+  rw [view_eq_annot, annot_map_fst]
+
+/-- the induction over the paragraphs of `Text.wrap`, for any comparison `N` of styled strings that respects
+concatenation -/
+theorem wrap_over_paragraphs [BEq σ] (cw : Char → Nat) (A : StyleAlg σ) (t : Text σ) (ht : Inv t) (w : Nat)
+    (justify : Option Justify) (overflow : Option Overflow) (tabSize : Option Nat) (noWrap : Option Bool)
+    (htab : '\t' ∉ t.plain) (N : List (Char × List σ) → List (Char × List σ))
+    (hN : ∀ a b, N (a ++ b) = N a ++ N b)
+    (hpar : ∀ P : Text σ, Inv P → ∃ out, wrapLine WVariant.repaired cw A P w (wrapJustifyOf t justify)
+        (wrapOverflowOf t overflow) (noWrapOf t overflow noWrap) = .ok out ∧
+        N (nsv (out.flatMap Text.view)) = N (nsv P.view)) :
     ∃ out, wrap WVariant.repaired cw A t w justify overflow tabSize noWrap = .ok out ∧
-      nsv (out.flatMap Text.view) = nsv t.view := by
+      N (nsv (out.flatMap Text.view)) = N (nsv t.view) := by
   obtain ⟨ps, hsplit, hink, hps⟩ := split_newline_ink t ht
   unfold wrap
-  rw [show WVariant.repaired.text = Variant.repaired from rfl, hsplit, hov, hnw]
+  rw [show WVariant.repaired.text = Variant.repaired from rfl, hsplit]
   simp only [bind, Except.bind]
   rw [← hink]
   clear hink hsplit
@@ -169,13 +216,44 @@ theorem wrap_fold_keeps_nonspace_partial [BEq σ] (cw : Char → Nat) (hsp : cw 
   | cons P ps ih =>
     obtain ⟨hP, _, hPc⟩ := hps P (by simp)
     obtain ⟨more, hmore, hmink⟩ := ih (fun l hl => hps l (List.mem_cons_of_mem _ hl))
-    obtain ⟨out, hout, hoink, _⟩ := wrapLine_fold_keeps cw hsp h2 A w hw _ hj P hP
+    obtain ⟨out, hout, hoink⟩ := hpar P hP
     have hnt : P.plain.contains '\t' = false := by
       rw [Bool.eq_false_iff]; intro hc
       exact htab (hPc _ (List.contains_iff_mem.mp hc))
     refine ⟨out ++ more, ?_, ?_⟩
     · simp only [wrapParagraphs, hnt, Bool.false_eq_true, if_false, bind, Except.bind, hout, hmore]
-    · simp only [List.flatMap_append, List.flatMap_cons, nsv_append, hoink, hmink]
+    · simp only [List.flatMap_append, List.flatMap_cons, nsv_append, hN, hoink, hmink]
+
+/-- **Whole text, every justify mode** (`Text.wrap` as called: split on newlines, wrap every paragraph): with the
+effective overflow "fold" and wrapping enabled, for a text without tab characters, the non-whitespace characters of all
+produced lines are exactly those of the text, in order, each with the effective style it had (modulo the null style).
+`_partial`: the tab-free hypothesis is the open obligation named in the header. -/
+theorem wrap_fold_keeps_nonspace_partial [BEq σ] [LawfulBEq σ] (cw : Char → Nat) (hsp : cw ' ' = 1) (h2 : ∀ c, cw c ≤ 2)
+    (A : StyleAlg σ) (t : Text σ) (ht : Inv t) (w : Nat) (hw : 2 ≤ w) (justify : Option Justify)
+    (overflow : Option Overflow) (tabSize : Option Nat) (noWrap : Option Bool)
+    (hov : wrapOverflowOf t overflow = Overflow.fold) (hnw : noWrapOf t overflow noWrap = false)
+    (htab : '\t' ∉ t.plain) :
+    ∃ out, wrap WVariant.repaired cw A t w justify overflow tabSize noWrap = .ok out ∧
+      dropNull A (nsv (out.flatMap Text.view)) = dropNull A (nsv t.view) := by
+  apply wrap_over_paragraphs cw A t ht w justify overflow tabSize noWrap htab (dropNull A) (dropNull_append A)
+  intro P hP
+  rw [hov, hnw]
+  obtain ⟨out, h1, h3, _⟩ := wrapLine_fold_keeps_every_justify cw hsp h2 A w hw (wrapJustifyOf t justify) P hP
+  exact ⟨out, h1, h3⟩
+
+/-- the same with the styles compared **exactly**, for the four justify modes that treat lines separately -/
+theorem wrap_fold_keeps_styles_exact_partial [BEq σ] (cw : Char → Nat) (hsp : cw ' ' = 1) (h2 : ∀ c, cw c ≤ 2)
+    (A : StyleAlg σ) (t : Text σ) (ht : Inv t) (w : Nat) (hw : 2 ≤ w) (justify : Option Justify)
+    (overflow : Option Overflow) (tabSize : Option Nat) (noWrap : Option Bool)
+    (hov : wrapOverflowOf t overflow = Overflow.fold) (hnw : noWrapOf t overflow noWrap = false)
+    (hj : wrapJustifyOf t justify ≠ Justify.full) (htab : '\t' ∉ t.plain) :
+    ∃ out, wrap WVariant.repaired cw A t w justify overflow tabSize noWrap = .ok out ∧
+      nsv (out.flatMap Text.view) = nsv t.view := by
+  apply wrap_over_paragraphs cw A t ht w justify overflow tabSize noWrap htab id (fun _ _ => rfl)
+  intro P hP
+  rw [hov, hnw]
+  obtain ⟨out, h1, h3, _⟩ := wrapLine_fold_keeps cw hsp h2 A w hw _ hj P hP
+  exact ⟨out, h1, h3⟩
 
 /-! ## every overflow mode: each character that is output carries the style it had -/
 
